@@ -31,7 +31,12 @@ def gen_case(rng):
     gap = rng.random() < 0.2 and nent > 0
     positions = list(range(1, nent + 1))
     if gap:
-        positions[rng.randrange(nent)] = nent + rng.choice([1, 2])
+        if rng.random() < 0.4:
+            positions[0] = rng.choice([0, 0, -1])              # a filled position <= 0 ...
+            if nent > 1 and rng.random() < 0.6:
+                positions[-1] = nent + 1                       # ... possibly with a compensating hole higher up
+        else:
+            positions[rng.randrange(nent)] = nent + rng.choice([1, 2])
     order = positions[:]
     rng.shuffle(order)
     if rng.random() < 0.25 and order:
